@@ -29,6 +29,8 @@ EXTENDS Merkle, TLC, Json
 
 CONSTANTS Kind,            \* "bridge" | "l1info"
           Fixed,           \* model the code with (TRUE) / without (FALSE) the F1 repair
+          FixedF11,        \* initCache assigns lastIndex together with the rebuilt frontier (TRUE, the repaired code) / before it
+                           \* walks the nodes (FALSE, finding F11: a failed read leaves lastIndex valid over a stale frontier)
           MaxBlocks,       \* block numbers 1..MaxBlocks
           MaxEvents,       \* events per block 0..MaxEvents
           MaxLeaves,       \* bound on fresh leaf values over a behaviour
@@ -99,7 +101,11 @@ Stmt(acc, failAt) == \* account one storage statement; returns TRUE if it fails
 
 AddLeafStep(acc, b, p, idx, x, failAt) ==
   LET m0 == IF idx # acc.m.lastIndex + 1 THEN InitCache(acc.ar, acc.nd, acc.m) ELSE acc.m IN
-  IF "err" \in DOMAIN m0 THEN [acc EXCEPT !.ok = FALSE]
+  IF acc.rinit /\ idx # acc.m.lastIndex + 1 /\ LastRootOf(acc.ar) # NoRoot
+  THEN \* initCache: the last root was read, a node of the walk down to the frontier cannot be read
+       [acc EXCEPT !.ok = FALSE, !.rinit = FALSE,
+                   !.m = IF FixedF11 THEN acc.m ELSE [acc.m EXCEPT !.lastIndex = LastRootOf(acc.ar).idx]]
+  ELSE IF "err" \in DOMAIN m0 THEN [acc EXCEPT !.ok = FALSE]
   ELSE IF idx # m0.lastIndex + 1
   THEN [acc EXCEPT !.ok = FALSE, !.m = m0, !.halt = (Kind = "bridge")]          \* ErrInvalidIndex
   ELSE LET c  == Climb(Leaf(x), idx, m0.cache)
@@ -163,8 +169,14 @@ Run(acc, b, evs, p, failAt) ==
 (* number of storage statements of a fault-free run of the block: used to enumerate fault points *)
 NStmts(b, evs) ==
   LET a0 == [ok |-> TRUE, ar |-> aroots, nd |-> rht, ur |-> uroots, und |-> urht, m |-> mem, cbs |-> 0, out |-> <<>>,
-             stmt |-> 1, halt |-> FALSE, f5 |-> FALSE, gr |-> gers]
+             stmt |-> 1, halt |-> FALSE, f5 |-> FALSE, gr |-> gers, rinit |-> FALSE]
   IN Run(a0, b, evs, 0, 0).stmt
+
+(* does the block's transaction rebuild the frontier from a stored root? (only then can a read of the rebuild fail) *)
+RebuildsFrontier(b, evs) ==
+  LET a0 == [ok |-> TRUE, ar |-> aroots, nd |-> rht, ur |-> uroots, und |-> urht, m |-> mem, cbs |-> 0, out |-> <<>>,
+             stmt |-> 1, halt |-> FALSE, f5 |-> FALSE, gr |-> gers, rinit |-> TRUE]
+  IN ~mem.halted /\ ~Run(a0, b, evs, 0, 0).rinit
 
 Rollback(m, cbs) == IF cbs = 0 THEN m
                     ELSE IF Fixed THEN [m EXCEPT !.lastIndex = -2] ELSE [m EXCEPT !.lastIndex = @ - cbs]
@@ -181,7 +193,8 @@ Process(b, evs, f) ==
        \* "read": a SELECT in front of write f.at fails (or that write itself) - for the design the same as a failing write
        LET failAt == IF f.kind \in {"stmt", "ctx", "read"} THEN f.at ELSE 0
            a0 == [ok |-> (failAt # 1), ar |-> aroots, nd |-> rht, ur |-> uroots, und |-> urht, m |-> mem, cbs |-> 0,
-                  out |-> <<>>, stmt |-> 1, halt |-> FALSE, f5 |-> FALSE, gr |-> gers]  \* statement 1 = INSERT INTO block
+                  out |-> <<>>, stmt |-> 1, halt |-> FALSE, f5 |-> FALSE, gr |-> gers,  \* statement 1 = INSERT INTO block
+                  rinit |-> (f.kind = "readinit")]     \* a read of the first frontier rebuild of this transaction fails
            a  == Run(a0, b, evs, 0, failAt)
        IN IF a.ok /\ f.kind # "commit"
           THEN /\ blk' = Append(blk, [num |-> b, evs |-> a.out])
@@ -294,6 +307,7 @@ DoProcess ==
                    \cup (IF "stmt" \in Faults THEN {[kind |-> "stmt", at |-> k] : k \in 1..n} ELSE {})
                    \cup (IF "ctx" \in Faults THEN {[kind |-> "ctx", at |-> k] : k \in 1..n} ELSE {})
                    \cup (IF "read" \in Faults THEN {[kind |-> "read", at |-> k] : k \in 1..n} ELSE {})
+                   \cup (IF "read" \in Faults /\ Kind # "ger" /\ RebuildsFrontier(b, evs) THEN {[kind |-> "readinit", at |-> 0]} ELSE {})
                    \cup (IF "commit" \in Faults THEN {[kind |-> "commit", at |-> 0]} ELSE {}) :
                Process(b, evs, f)
           \* a block that was not stored is retried with the same content: leaf atoms are consumed only on success
